@@ -484,7 +484,7 @@ def gen_desc(seed, idx):
     return d
 
 
-def enum_descs(clsname, length):
+def enum_descs(clsname, length, mode='direct'):
     """all command sequences of the given length over 4 priorities x 3 values x {write, relinquish}"""
     kind, dom = CLASSES[clsname]
     prios = [1, 8, 16, None]
@@ -499,7 +499,11 @@ def enum_descs(clsname, length):
         for i in seqops:
             ops.append(dict(uniq[i]))
         ops += reads()
-        yield {'prop': 'C17', 'seed': 0, 'cls': clsname, 'mode': 'direct', 'default': dom[1], 'ops': reads() + ops}
+        d = {'prop': 'C17', 'seed': 0, 'cls': clsname, 'mode': mode, 'default': dom[1], 'ops': reads() + ops}
+        if mode == 'wire':
+            d['faults'] = {'mode': 'none'}
+            d['latency'] = 0.0
+        yield d
 
 
 def _account(agg, d, r):
@@ -531,7 +535,7 @@ def run_unit(unit):
             _account(agg, d, execute_desc(d))
     else:
         n = 0
-        for d in enum_descs(unit['cls'], unit['length']):
+        for d in enum_descs(unit['cls'], unit['length'], unit.get('mode', 'direct')):
             if n % unit['mod'] == unit['rem']:
                 _account(agg, d, execute_desc(d))
             n += 1
@@ -544,12 +548,21 @@ def units(tier, seed):
     names = sorted(CLASSES)
     if tier == 'quick':
         for c in names:
+            us.append({'kind': 'enum', 'must': True, 'cls': c, 'length': 1, 'mod': 1, 'rem': 0})
             us.append({'kind': 'enum', 'must': True, 'cls': c, 'length': 2, 'mod': 1, 'rem': 0})
+            us.append({'kind': 'enum', 'must': True, 'cls': c, 'length': 1, 'mod': 1, 'rem': 0, 'mode': 'wire'})
         n = 500
     else:
         for c in names:
+            for ln in (1, 2, 3):
+                us.append({'kind': 'enum', 'must': True, 'cls': c, 'length': ln, 'mod': 1, 'rem': 0})
             for rem in range(16):
                 us.append({'kind': 'enum', 'must': True, 'cls': c, 'length': 4, 'mod': 16, 'rem': rem})
+            # the same alphabet through WriteProperty / ReadProperty requests of a real client stack (fault-free LAN)
+            us.append({'kind': 'enum', 'must': True, 'cls': c, 'length': 1, 'mod': 1, 'rem': 0, 'mode': 'wire'})
+            us.append({'kind': 'enum', 'must': True, 'cls': c, 'length': 2, 'mod': 1, 'rem': 0, 'mode': 'wire'})
+            for rem in range(8):
+                us.append({'kind': 'enum', 'must': True, 'cls': c, 'length': 3, 'mod': 8, 'rem': rem, 'mode': 'wire'})
         for c in ('AnalogValueCmdObject', 'BinaryValueCmdObject'):
             for rem in range(64):
                 us.append({'kind': 'enum', 'must': True, 'cls': c, 'length': 5, 'mod': 64, 'rem': rem})
@@ -568,7 +581,7 @@ def evidence(tier, seed, total):
         'level': LEVEL,
         'coverage': {
             'rule': 'Enumerated: for each of the 20 commandable classes ALL command sequences of the stated length over 4 priorities (1, 8, 16, none) x 3 values x {write, relinquish} '
-                    'through direct property access, present value and priority array read before and after. Explored: seeded sequences of 1-100 commands over all 16 priorities, '
+                    'through direct property access and (shorter lengths) through WriteProperty requests on the wire, present value and priority array read before and after. Explored: seeded sequences of 1-100 commands over all 16 priorities, '
                     'invalid priorities (0, 17, 18, 255), optional relinquish default / initial present value, binary classes with minimum on/off times 0-10 s and virtual time '
                     'advanced between commands (gaps chosen off the whole-second grid so no read ties with a timer expiry), half of the runs through direct access and half through '
                     'WriteProperty / ReadProperty requests of a real client stack over a LAN with hashed drop/dup/delay plans (the model is applied at each server-side '
@@ -581,5 +594,6 @@ def evidence(tier, seed, total):
         'assumptions': ['the 16-slot reference model and its slot-6 timer model are correct', 'a write without priority counts as priority 16',
                         'priority 6 is not commanded on binary objects with minimum times (reserved by the standard for that mechanism)',
                         'binary objects with a minimum time are constructed with an explicit present value, as the library requires',
-                        'exhaustive enumeration: length 2 (quick), length 4 for all 20 classes and length 5 for the analog-value and binary-value classes (thorough)'],
+                        'exhaustive enumeration, direct access: lengths 1-2 (quick), lengths 1-4 for all 20 classes and length 5 for the analog-value and binary-value classes (thorough); '
+                        'through WriteProperty requests over a fault-free LAN: length 1 (quick), lengths 1-3 for all 20 classes (thorough)'],
     }
